@@ -553,7 +553,7 @@ class TimeoutFamily(common.Family):
   """A starved get or put with `timeout` configured raises TimeoutError."""
   prop = 'C05'
   name = 'timeout'
-  max_steps = 1_000_000
+  max_steps = 200_000
 
   def gen(self, rng, tier):
     cfg = _base_cfg(rng, min_items=0, max_items=5)
@@ -568,6 +568,10 @@ class TimeoutFamily(common.Family):
       # consumers take a few elements, then stop consuming
       cfg['take'] = rng.randrange(0, 3)
       cfg['items'] = [cfg['cap'] + cfg['take'] + rng.randrange(1, 4)]
+      # several producers can be starved on the same full queue
+      cfg['P'] = rng.choice([1, 1, 2, 3])
+      cfg['items'] = cfg['items'] * cfg['P']
+      cfg['rets'] = cfg['rets'] * cfg['P']
       cfg['C'] = 1
       cfg['modes'] = cfg['modes'][:1]
       cfg['ks'] = cfg['ks'][:1]
@@ -581,33 +585,34 @@ class TimeoutFamily(common.Family):
 
     C, cap, tau = cfg['C'], cfg['cap'], cfg['tau']
     base = queue.Queue(cap) if cap else queue.SimpleQueue()
-    q = iter_utils.IteratorQueue(base, name='q', max_enqueuer=1, timeout=tau)
+    P = cfg['P']
+    q = iter_utils.IteratorQueue(base, name='q', max_enqueuer=P, timeout=tau)
     got = [[] for _ in range(C)]
     ends = [None] * C
     t_end = [None] * C
     t_start = [None] * C
-    prod = [None]
-    t_prod = [None, None]
+    prod = [None] * P
+    t_prod = [[None, None] for _ in range(P)]
     release = threading.Event()
 
-    def gen():
-      for i in range(cfg['items'][0]):
-        yield (0, i)
+    def gen(p):
+      for i in range(cfg['items'][p]):
+        yield (p, i)
       if cfg['side'] == 'get':
         # Starve the consumers: stop producing without finishing.
         sim.count('fault:starve_consumers')
         release.wait()
-      if cfg['rets'][0]:
-        return ('ret', 0)
+      if cfg['rets'][p]:
+        return ('ret', p)
 
-    def produce():
-      t_prod[0] = time.monotonic()
+    def produce(p=0):
+      t_prod[p][0] = time.monotonic()
       try:
-        q.enqueue_from_iterator(gen())
-        prod[0] = ['ok']
+        q.enqueue_from_iterator(gen(p))
+        prod[p] = ['ok']
       except Exception as e:  # pylint: disable=broad-exception-caught
-        prod[0] = ['exc', type(e).__name__, str(e)]
-      t_prod[1] = time.monotonic()
+        prod[p] = ['exc', type(e).__name__, str(e)]
+      t_prod[p][1] = time.monotonic()
 
     def consume(c):
       t_start[c] = time.monotonic()
@@ -629,13 +634,15 @@ class TimeoutFamily(common.Family):
                  f'(timeout={tau})') if sim.now > limit else None)
     cs = [threading.Thread(target=consume, args=(c,), name=f'cons{c}')
           for c in range(C)]
-    pt = threading.Thread(target=produce, name='prod0')
-    _start_all(sim, [pt.start] + [t.start for t in cs])
+    pts = [threading.Thread(target=produce, args=(p,), name=f'prod{p}')
+           for p in range(P)]
+    _start_all(sim, [t.start for t in pts] + [t.start for t in cs])
     for t in cs:
       t.join()
     if cfg['side'] == 'get':
       release.set()
-    pt.join()
+    for t in pts:
+      t.join()
     return {'got': got, 'ends': ends, 'prod': prod, 't_end': t_end,
             't_start': t_start, 't_prod': t_prod}
 
@@ -648,6 +655,13 @@ class TimeoutFamily(common.Family):
       where = common.blocked_sig(f.detail.get('threads', []))
       return [v('timeout', f"never-times-out:{cfg['side']}:{where}",
                 str(f) + ' ' + str(f.detail)[:500])]
+    if f is not None and f.kind == 'budget':
+      # Bounded liveness in steps: the whole scenario takes some 10^4 steps;
+      # a starved side that is still busy after 2*10^5 (threads waking each
+      # other for ever, so that no wait ever runs into its timeout) will
+      # never time out.
+      return [v('timeout', f"never-times-out:{cfg['side']}:livelock",
+                str(f) + ' ' + str(f.detail)[:600])]
     if out.get('failure') is not None:
       return []
     if 'error' in out:
@@ -667,12 +681,18 @@ class TimeoutFamily(common.Family):
                        f'consumer {c} timed out after '
                        f"{obs['t_end'][c] - obs['t_start'][c]:.3f}s < {tau}"))
     else:
-      st = obs['prod'][0]
-      if st is None or st[0] != 'exc' or st[1] != 'TimeoutError':
-        res.append(v('timeout', 'starved-put-no-timeout', f'producer: {st}'))
-      elif obs['t_prod'][1] - obs['t_prod'][0] < tau - 1e-3:
+      # every starved producer ends; at least one with the timeout error (it
+      # fails the queue, the others may then simply stop and return)
+      sts = obs['prod']
+      timed = [p for p, st in enumerate(sts)
+               if st and st[0] == 'exc' and st[1] == 'TimeoutError']
+      bad = [st for st in sts if st is None or (
+          st != ['ok'] and not (st[0] == 'exc' and st[1] == 'TimeoutError'))]
+      if not timed or bad:
+        res.append(v('timeout', 'starved-put-no-timeout', f'producers: {sts}'))
+      elif min(obs['t_prod'][p][1] - obs['t_prod'][p][0] for p in timed) < tau - 1e-3:
         res.append(v('timeout', 'early-timeout:put',
-                     f"{obs['t_prod'][1] - obs['t_prod'][0]:.3f}s < {tau}"))
+                     f"{[obs['t_prod'][p] for p in timed]} < {tau}"))
     allgot = [tuple(x) for g in obs['got'] for x in g]
     ok, extra = _subset_nodup(allgot, c04.expected_items(cfg))
     if not ok:
